@@ -449,8 +449,8 @@ package iavl
 //@   requires tree != nil && tree.ndb != nil && tree.ndb.db != nil
 //@   requires tree.ndb.legacyLatestVersion == 0 - 1 && tree.ndb.firstVersion > 0 && tree.ndb.latestVersion > 0 && version >= 0
 //@   ensures [range] ok == (tree.ndb.firstVersion <= version && version <= tree.ndb.latestVersion)
-//@   ensures [pure] tree.ndb.firstVersion == old(tree.ndb.firstVersion) && tree.ndb.latestVersion == old(tree.ndb.latestVersion)
-//@   modifies *
+//@   ensures [pure] tree.ndb.firstVersion == old(tree.ndb.firstVersion) && tree.ndb.latestVersion == old(tree.ndb.latestVersion) && tree.ndb.legacyLatestVersion == old(tree.ndb.legacyLatestVersion)
+//@   modifies tree.ndb.firstVersion, tree.ndb.latestVersion, tree.ndb.legacyLatestVersion
 
 //@ func (*MutableTree).GetLatestVersion(tree) (v, err)
 //@   props C14
@@ -560,4 +560,28 @@ package iavl
 //@   requires node.subtreeHeight != 0 && node.rightNodeKey != nil ==> len(node.rightNodeKey) == 12 || len(node.rightNodeKey) == 32
 //@   ensures [nokey] old(node.nodeKey) == nil ==> err != nil
 //@   ensures [nostale] err == nil ==> cachemap[ndb.nodeCache][ckeyOf(node)] == node || cachemap[ndb.nodeCache][ckeyOf(node)] == nil
+//@   modifies *
+
+// ---------------------------------------------------------------- versioned reads and proofs (C03/C14): a versioned query is answered from the committed tree of that version
+
+//@ func (*MutableTree).GetImmutable(tree, version) (t, err)
+//@   assumed persistence boundary: the root recorded for a version decodes to the committed tree dbtree(version)
+//@   requires tree != nil && tree.ndb != nil
+//@   ensures err == nil ==> t != nil && fresh(t) && t.version == version && tview(t.root) == dbtree(version) && (t.root != nil ==> valid(t.root)) && t.ndb == tree.ndb
+//@   ensures nframe(old(heap(N)), heap(N), old(na))
+//@   modifies nodeDB.*[*], Statistics.*[*]
+//@   allocates ImmutableTree Node NodeKey BM
+
+//@ func (*ImmutableTree).GetProof(t, key) (proof, err)
+//@   assumed the proof construction itself is not yet under contract: isProofFor names its result
+//@   requires t != nil
+//@   ensures err == nil ==> isProofFor(proof, old(tview(t.root)), ord(key))
+//@   modifies Node.hash[*], Node.leftNode[*], Node.rightNode[*], nodeDB.*[*], Statistics.*[*]
+
+//@ func (*MutableTree).GetVersionedProof(tree, key, version) (proof, err)
+//@   props C03 C14
+//@   requires tree != nil && tree.ndb != nil && tree.ndb.db != nil && tree.ImmutableTree != nil
+//@   requires tree.ndb.legacyLatestVersion == 0 - 1 && tree.ndb.firstVersion > 0 && tree.ndb.latestVersion > 0 && version >= 0
+//@   ensures [committed] err == nil ==> isProofFor(proof, dbtree(version), ord(key))
+//@   ensures [range] !(tree.ndb.firstVersion <= version && version <= tree.ndb.latestVersion) ==> err != nil
 //@   modifies *
